@@ -1,0 +1,31 @@
+//go:build verif
+
+package redis
+
+// Accessors to the unexported command, keyword and type tables (verification harness only).
+
+func VerifCommands() []string {
+	out := make([]string, len(commands))
+	for i, c := range commands {
+		out[i] = string(c)
+	}
+	return out
+}
+
+func VerifKeywords() []string {
+	out := make([]string, len(keywords))
+	for i, k := range keywords {
+		out[i] = string(k)
+	}
+	return out
+}
+
+// VerifTypes returns the type names in the order + $ * : - 0.
+func VerifTypes() []string {
+	order := []rune{plusByte, dollarByte, asteriskByte, colonByte, minusByte, notApplicableByte}
+	out := make([]string, len(order))
+	for i, r := range order {
+		out[i] = string(types[r])
+	}
+	return out
+}
